@@ -358,7 +358,7 @@ mod verif_in_context {
         core::mem::forget(rcv);
     }
 
-    //@ h name=step_retransmit props=C17 tier=off cap=small to=2400 mem=30
+    //@ h name=step_retransmit props=C17 tier=quick cap=small to=1200
     //@ claim: retransmit() writes the stored packets of the retransmit queue in their original order, each exactly once and unchanged, clears the recorded disconnection, and leaves the queue as it was
     //@ bounds: queue of two entries of 2 and 3 arbitrary bytes; a writer that accepts everything at once
     //@ funcs: Context::retransmit, TxPacketStream::write
@@ -391,44 +391,176 @@ mod verif_in_context {
         core::mem::forget(session);
     }
 
-    //@ h name=step_msg_publish props=C06,C10,C12,C17 tier=off cap=small to=3000 mem=40
-    //@ claim: experiment: one handle_message(AwaitAck PUBLISH) step
-    #[kani::proof]
-    #[kani::unwind(8)]
-    pub(crate) fn step_msg_publish() {
+    /// One `handle_message` step from an arbitrary valid pre-state: R and quota symbolic with
+    /// quota <= R, Maximum Packet Size symbolic (absent or any u32), one pre-existing waiter and
+    /// one pre-existing retransmit entry (to observe FIFO append and non-interference).
+    /// kind: 1 = PUBLISH QoS 1, 2 = PUBLISH QoS 2, 3 = PUBREL, 4 = UNSUBSCRIBE-like AwaitAck,
+    /// 5 = PINGREQ AwaitAck, 6 = FireAndForget (QoS 0 PUBLISH), 7 = FireAndForget (DISCONNECT),
+    /// 8 = Subscribe
+    fn step_msg_body(kind: u8) {
         let mut cx = task_cx();
         let mut tx = TxPacketStream::from(VecTx::new());
         let r: u16 = kani::any();
         let q: u16 = kani::any();
         kani::assume(r >= 1 && q <= r);
-        let mut connection = Connection { disconnection_timestamp: None, session_expiry_interval: 0, remote_receive_maximum: r, remote_max_packet_size: None, send_quota: q };
+        let mps: Option<u32> = kani::any();
+        let mut connection = Connection { disconnection_timestamp: None, session_expiry_interval: kani::any(), remote_receive_maximum: r, remote_max_packet_size: mps, send_quota: q };
         let mut session = Session { awaiting_ack: VecDeque::new(), subscriptions: VecDeque::new(), retrasmit_queue: VecDeque::new() };
-        let mut packet = BytesMut::new();
+        let (s0, mut rcv0) = oneshot::channel::<Result<RxPacket, MqttError>>();
+        session.awaiting_ack.push_back((0x0400_0100, s0));
+        static OLD: [u8; 4] = [0x3a, 2, 0, 1];
+        session.retrasmit_queue.push_back((0x0400_0100, Bytes::from_static(&OLD)));
+
         let retain: bool = kani::any();
-        packet.extend_from_slice(&[0x32 | retain as u8, 5, 0, 1, b't', 0, 7, 0]);
-        let (s, mut rcv) = oneshot::channel();
-        let aid = (4usize << 24) | (7usize << 8);
-        let msg = ContextMessage::AwaitAck(AwaitAck { action_id: aid, packet, response_channel: s });
+        let (idh, idl): (u8, u8) = (kani::any(), kani::any());
+        kani::assume(idh != 0 || idl != 0);
+        let aid: usize = kani::any();
+        let sub_id: usize = kani::any();
+        let mut packet = BytesMut::new();
+        let len: usize = match kind {
+            1 | 2 | 6 => {
+                let hdr = 0x30 | retain as u8 | if kind == 1 { 2 } else if kind == 2 { 4 } else { 0 };
+                packet.extend_from_slice(&[hdr, 6, 0, 1, b't', idh, idl, 0]);
+                8
+            }
+            3 => {
+                packet.extend_from_slice(&[0x62, 2, idh, idl]);
+                4
+            }
+            4 => {
+                packet.extend_from_slice(&[0xa2, 6, idh, idl, 0, 0, 1, b't']);
+                8
+            }
+            5 => {
+                packet.extend_from_slice(&[0xc0, 0]);
+                2
+            }
+            7 => {
+                packet.extend_from_slice(&[0xe0, 2, 0, 0]);
+                4
+            }
+            _ => {
+                packet.extend_from_slice(&[0x82, 8, idh, idl, 0, 0, 1, b't', 2, 0]);
+                10
+            }
+        };
+        let first = packet[0];
+        let too_large = match mps {
+            Some(m) => len > m as usize,
+            None => false,
+        };
+        let (sa, mut ra) = oneshot::channel::<Result<RxPacket, MqttError>>();
+        let (sf, mut rf) = oneshot::channel::<Result<(), MqttError>>();
+        let (st, mut rt) = mpsc::unbounded::<RxPacket>();
+        let msg = match kind {
+            1..=5 => ContextMessage::AwaitAck(AwaitAck { action_id: aid, packet, response_channel: sa }),
+            6 | 7 => ContextMessage::FireAndForget(FireAndForget { packet, response_channel: sf }),
+            _ => ContextMessage::Subscribe(Subscribe { action_id: aid, subscription_identifier: sub_id, packet, response_channel: sa, stream: st }),
+        };
         {
             let mut f = core::pin::pin!(CtxV::handle_message(&mut tx, &mut connection, &mut session, msg));
             match core::future::Future::poll(f.as_mut(), &mut cx) {
                 core::task::Poll::Ready(Ok(())) => {}
-                _ => panic!("step completes"),
+                _ => panic!("the step completes with Ok while all callers are alive and the transport accepts the bytes"),
             }
         }
-        if q == 0 {
-            assert!(out_n() == 0 && connection.send_quota == 0, "quota exhausted: nothing written");
-            assert!(session.awaiting_ack.is_empty() && session.retrasmit_queue.is_empty(), "nothing left behind");
-            assert!(matches!(rcv.try_recv(), Ok(Some(Err(MqttError::QuotaExceeded(_))))), "QuotaExceeded reported");
+        assert!(connection.remote_receive_maximum == r && connection.remote_max_packet_size == mps, "the limits announced by the server are not touched");
+        assert!(session.awaiting_ack[0].0 == 0x0400_0100 && matches!(rcv0.try_recv(), Ok(None)), "an earlier waiter stays registered, first in line, and is not completed");
+        assert!(session.retrasmit_queue[0].0 == 0x0400_0100 && session.retrasmit_queue[0].1.len() == 4, "an earlier retransmit entry stays, first in line");
+        let quota_limited = kind == 1 || kind == 2;
+        if too_large || (quota_limited && q == 0) {
+            assert!(out_n() == 0, "a refused request writes not a single byte");
+            assert!(connection.send_quota == q, "a refused request takes no quota slot");
+            assert!(session.awaiting_ack.len() == 1 && session.retrasmit_queue.len() == 1 && session.subscriptions.is_empty(), "a refused request leaves no waiter, retransmit entry or stream registration behind");
+            if kind == 6 || kind == 7 {
+                match rf.try_recv() {
+                    Ok(Some(Err(MqttError::MaximumPacketSizeExceeded(_)))) => {}
+                    _ => panic!("the caller is told MaximumPacketSizeExceeded"),
+                }
+            } else {
+                match ra.try_recv() {
+                    Ok(Some(Err(MqttError::MaximumPacketSizeExceeded(_)))) => assert!(too_large, "MaximumPacketSizeExceeded only when L > M"),
+                    Ok(Some(Err(MqttError::QuotaExceeded(_)))) => assert!(!too_large && quota_limited && q == 0, "QuotaExceeded only for a QoS>0 PUBLISH at quota 0"),
+                    _ => panic!("the caller is told why the request was refused"),
+                }
+            }
+            kani::cover!(too_large, "refused: larger than Maximum Packet Size");
+            kani::cover!(!too_large, "opt: refused: quota exhausted");
         } else {
-            assert!(connection.send_quota == q - 1, "one slot taken");
-            assert!(out_n() == 8 && out(0) == 0x32 | retain as u8, "the PUBLISH is written unchanged (DUP=0)");
-            assert!(session.awaiting_ack.len() == 1 && session.retrasmit_queue.len() == 1, "waiter and retransmit entry registered");
-            assert!(session.retrasmit_queue[0].1[0] == 0x3a | retain as u8, "the stored copy has DUP=1");
+            assert!(out_n() == len, "exactly the packet is written, once");
+            assert!(out(0) == first, "first byte unchanged on the wire (DUP=0 for a first transmission)");
+            assert!(out(1) as usize == len - 2, "remaining length byte unchanged");
+            assert!(connection.send_quota == if quota_limited { q - 1 } else { q }, "exactly a QoS>0 PUBLISH takes one quota slot; nothing else is limited");
+            match kind {
+                1 | 2 => {
+                    assert!(session.awaiting_ack.len() == 2 && session.awaiting_ack[1].0 == aid, "waiter appended under the operation's action id");
+                    assert!(session.retrasmit_queue.len() == 2 && session.retrasmit_queue[1].0 == aid, "PUBLISH stored for retransmission under its action id");
+                    let stored = &session.retrasmit_queue[1].1;
+                    assert!(stored.len() == len && stored[0] == first | 0x08, "the stored copy has DUP=1");
+                    assert!(stored[5] == idh && stored[6] == idl && stored[4] == b't', "the stored copy carries the same identifier and content");
+                    assert!(matches!(ra.try_recv(), Ok(None)), "the operation stays pending until its acknowledgement");
+                }
+                3 => {
+                    assert!(session.awaiting_ack.len() == 2 && session.awaiting_ack[1].0 == aid, "waiter appended");
+                    assert!(session.retrasmit_queue.len() == 2 && session.retrasmit_queue[1].0 == aid, "PUBREL stored for retransmission");
+                    let stored = &session.retrasmit_queue[1].1;
+                    assert!(stored.len() == 4 && stored[0] == 0x62 && stored[2] == idh && stored[3] == idl, "the stored PUBREL is unchanged");
+                    assert!(matches!(ra.try_recv(), Ok(None)), "pending until PUBCOMP");
+                }
+                4 | 5 => {
+                    assert!(session.awaiting_ack.len() == 2 && session.awaiting_ack[1].0 == aid, "waiter appended");
+                    assert!(session.retrasmit_queue.len() == 1, "only PUBLISH and PUBREL are kept for retransmission");
+                    assert!(matches!(ra.try_recv(), Ok(None)), "pending until acknowledged");
+                }
+                6 | 7 => {
+                    assert!(session.awaiting_ack.len() == 1 && session.retrasmit_queue.len() == 1, "fire-and-forget leaves nothing behind");
+                    assert!(matches!(rf.try_recv(), Ok(Some(Ok(())))), "completed once written");
+                }
+                _ => {
+                    assert!(session.awaiting_ack.len() == 2 && session.awaiting_ack[1].0 == aid, "waiter appended");
+                    assert!(session.subscriptions.len() == 1 && session.subscriptions[0].0 == sub_id, "stream registered under the subscription identifier when the SUBSCRIBE is sent");
+                    assert!(session.retrasmit_queue.len() == 1, "SUBSCRIBE is not kept for retransmission");
+                    assert!(matches!(ra.try_recv(), Ok(None)), "pending until SUBACK");
+                }
+            }
+            assert!(session.subscriptions.len() == if kind == 8 { 1 } else { 0 }, "stream registrations only for subscribe");
+            kani::cover!(quota_limited && q == 1, "opt: last quota slot taken");
+            kani::cover!(mps.is_some(), "accepted with a Maximum Packet Size announced");
+            kani::cover!(mps == Some(len as u32), "accepted at exactly L == M");
         }
-        kani::cover!(q == 0, "quota exhausted");
-        kani::cover!(q == r, "full quota");
         core::mem::forget(session);
-        core::mem::forget(rcv);
+        core::mem::forget(rcv0);
+        core::mem::forget(ra);
+        core::mem::forget(rf);
+        core::mem::forget(rt);
     }
+
+    macro_rules! step_msg {
+        ($name:ident, $kind:expr) => {
+            #[kani::proof]
+            #[kani::unwind(12)]
+            pub(crate) fn $name() {
+                step_msg_body($kind);
+            }
+        };
+    }
+    //@ h name=step_msg_publish_q1 props=C05,C06,C10,C12,C17 tier=quick cap=small to=1200
+    //@ h name=step_msg_publish_q2 props=C05,C06,C10,C12,C17 tier=quick cap=small to=1200
+    //@ h name=step_msg_pubrel props=C05,C06,C10,C12,C17 tier=quick cap=small to=1200
+    //@ h name=step_msg_unsubscribe props=C05,C10,C12 tier=quick cap=small to=1200
+    //@ h name=step_msg_pingreq props=C05,C10,C12 tier=thorough cap=small to=1200
+    //@ h name=step_msg_publish_q0 props=C06,C10,C12 tier=quick cap=small to=1200
+    //@ h name=step_msg_disconnect props=C10,C12 tier=thorough cap=small to=1200
+    //@ h name=step_msg_subscribe props=C05,C07,C10,C12 tier=quick cap=small to=1200
+    //@ claim: one Context::handle_message step from every valid pre-state: a request larger than the announced Maximum Packet Size is refused with MaximumPacketSizeExceeded (exactly when L > M), a QoS>0 PUBLISH at quota 0 with QuotaExceeded, and a refused request writes nothing, takes no quota slot and leaves no waiter / retransmit entry / stream registration; an accepted request is written exactly once and unchanged (DUP=0), only a QoS>0 PUBLISH takes exactly one quota slot, the waiter is appended under the operation's action id behind earlier waiters (which stay pending and first in line), PUBLISH (copy with DUP=1, same identifier and content) and PUBREL (unchanged) are appended to the retransmit queue and nothing else is, a subscribe registers its stream under its subscription identifier at send time, fire-and-forget requests complete with Ok once written
+    //@ bounds: R 1..=65535 and quota 0..=R symbolic; Maximum Packet Size absent or any u32; one earlier waiter and one earlier retransmit entry; request kinds {PUBLISH QoS 1, QoS 2, PUBREL, UNSUBSCRIBE, PINGREQ, PUBLISH QoS 0, DISCONNECT, SUBSCRIBE} one per harness, packets of 2..=10 bytes with symbolic identifier and retain bit, action id and subscription identifier arbitrary; transport accepts every write at once; all callers alive (cancellation and transport faults not covered)
+    //@ funcs: Context::handle_message, Context::validate_packet_size, TxPacketStream::write
+    step_msg!(step_msg_publish_q1, 1);
+    step_msg!(step_msg_publish_q2, 2);
+    step_msg!(step_msg_pubrel, 3);
+    step_msg!(step_msg_unsubscribe, 4);
+    step_msg!(step_msg_pingreq, 5);
+    step_msg!(step_msg_publish_q0, 6);
+    step_msg!(step_msg_disconnect, 7);
+    step_msg!(step_msg_subscribe, 8);
 }
